@@ -101,6 +101,48 @@ func c01RoundTrip(c *Ctx, in c01Input) (out string, err error, pm string) {
 				out = "<<partner file changed>>\n" + b2.String()
 			}
 		})
+	case "parsedir-package":
+		// the file in a directory with a second file of the same package: both come back unchanged
+		// (one fileDecorator fragments the whole package; one file's layout must not leak into another's)
+		name := c01PackageName(in.Src)
+		if name == "" {
+			return in.Src, nil, ""
+		}
+		partner := strings.Replace(c01DirPartner, "package a\n", "package "+name+"\n", 1)
+		dir, e := os.MkdirTemp(filepath.Join(c.Verif, ".build"), "c01p-")
+		if e != nil {
+			return "", e, ""
+		}
+		defer os.RemoveAll(dir)
+		os.WriteFile(filepath.Join(dir, "x.go"), []byte(in.Src), 0644)
+		os.WriteFile(filepath.Join(dir, "y.go"), []byte(partner), 0644)
+		pm = safely(func() {
+			dec := decorator.NewDecorator(token.NewFileSet())
+			pkgs, e := dec.ParseDir(dir, nil, parser.ParseComments)
+			if e != nil {
+				err = e
+				return
+			}
+			out = in.Src
+			for _, p := range pkgs {
+				for fn, f := range p.Files {
+					var buf bytes.Buffer
+					if err = decorator.NewRestorer().Fprint(&buf, f); err != nil {
+						return
+					}
+					switch filepath.Base(fn) {
+					case "x.go":
+						if buf.String() != in.Src {
+							out = buf.String()
+						}
+					case "y.go":
+						if buf.String() != partner && out == in.Src {
+							out = "<<partner file changed>>\n" + buf.String()
+						}
+					}
+				}
+			}
+		})
 	case "parsedir":
 		dir, e := os.MkdirTemp(filepath.Join(c.Verif, ".build"), "c01-")
 		if e != nil {
@@ -195,6 +237,35 @@ func c01HasCommentAlignedWithCloser(src, out string) bool {
 
 const c01Partner = "package a\n\nvar (\n\ta = 1\n\tb = 2\n\n\t// c\n\tc = 3\n\td = 4 // d\n)\n\nfunc g() {\n\tif a > b {\n\t\treturn\n\t}\n}\n"
 
+// a second file for the directory entry: a multi-line raw string, a multi-line comment and a long
+// run of statements separated by blank lines (so that blank lines sit at many line numbers)
+var c01DirPartner = func() string {
+	var sb strings.Builder
+	sb.WriteString("package a\n\nvar partnerRaw = `l1\nl2\nl3\nl4\nl5\nl6\nl7\nl8\nl9`\n\n/*\n   block\n   comment\n*/\n\nfunc partnerF() {\n\ta := 0\n")
+	for i := 1; i <= 40; i++ {
+		sb.WriteString("\n\ta += " + fmt.Sprint(i) + "\n")
+	}
+	sb.WriteString("\n\t_ = a\n}\n\nvar partnerTail = `t1\nt2\nt3`\n")
+	return sb.String()
+}()
+
+func c01PackageName(src string) string {
+	f, err := parser.ParseFile(token.NewFileSet(), "x.go", src, parser.PackageClauseOnly)
+	if err != nil || f.Name == nil {
+		return ""
+	}
+	return f.Name.Name
+}
+
+// inputs of fixed defects: they must stay fixed (two files of one package: a raw string in the
+// partner spans the line numbers of this file's blank lines)
+var c01Regress = []c01Input{
+	{Src: "package a\n\nfunc F() {\n\tx := 1\n\n\ty := 2\n\n\t_, _ = x, y\n}\n", Entry: "parsedir-package"},
+	{Src: "package a\n\nfunc F() {}\n\n// trailing a\n", Entry: "parsedir-package"},
+	{Src: "package a\n\n//go:generate x\n//go:generate y\n", Entry: "parsedir-package"},
+	{Src: "package a\n\nvar s = `a\nb\nc\nd\ne\nf\ng\nh\ni\nj\nk\nl\nm\nn\no\np\nq\nr\ns\nt\nu\nv`\n", Entry: "parsedir-package"},
+}
+
 var c01Known = []string{
 	"package a\n\nvar (\n\ta = 1\n\n// c\n)\n",
 	"package a\n\nfunc f() {\n\tfoo(\n\t\ta,\n\t// c\n\t)\n}\n",
@@ -221,7 +292,7 @@ func c01Prop(c *Ctx) {
 			srcs = append(srcs, string(b))
 		}
 	}
-	entries := []string{"parse-print", "decorator-restorer", "filerestorer-reuse", "parsedir"}
+	entries := []string{"parse-print", "decorator-restorer", "filerestorer-reuse", "parsedir", "parsedir-package"}
 	canonical := 0
 	for i, src := range srcs {
 		if !isCanonical(src) {
@@ -229,7 +300,7 @@ func c01Prop(c *Ctx) {
 		}
 		canonical++
 		for ei, e := range entries {
-			if e == "parsedir" && i%4 != 0 {
+			if (e == "parsedir" && i%4 != 0) || (e == "parsedir-package" && i%3 != 0) {
 				continue
 			}
 			_ = ei
@@ -244,6 +315,13 @@ func c01Prop(c *Ctx) {
 		}
 	}
 	c.Res.Notes = append(c.Res.Notes, fmt.Sprintf("%d of %d candidate files are gofmt-canonical", canonical, len(srcs)))
+	for _, in := range c01Regress {
+		c.Res.Evaluations++
+		c.Res.hist("c01-entry", in.Entry)
+		if key, what := c01Check(c, in); key != "" {
+			c.Res.fail(key, what, in)
+		}
+	}
 	for _, src := range c01Known {
 		in := c01Input{Src: src, Entry: "parse-print"}
 		c.Res.Evaluations++
